@@ -178,7 +178,15 @@ def judge_lookup(case, ctx, prefix):
         if isinstance(nm, str):
             c = ccp.periodic_voltage_source(id='V', nodes=('a', '0'), wavetype=nm, V=1.0, w=10.0)
             circ = Circuit([c, ccp.resistor('R', ('a', '0'), 5.0)])
-            must_raise(ctx, prefix, 'unknown-waveform/analysis', f'analysing a periodic source of unknown wave type {nm!r}', transform_circuit, circ, 10.0)
+            from CircuitCalculator.Circuit import solution as S
+            for wq in (10.0, 25.0, 7.0, 0.0):           # at a harmonic, between harmonics, at DC
+                must_raise(ctx, prefix, 'unknown-waveform/analysis', f'transform_circuit at w={wq} with a periodic source of unknown wave type {nm!r}', transform_circuit, circ, wq)
+                must_raise(ctx, prefix, 'unknown-waveform/analysis', f'ComplexSolution at w={wq} with a periodic source of unknown wave type {nm!r}', S.ComplexSolution, circuit=circ, w=wq)
+            must_raise(ctx, prefix, 'unknown-waveform/analysis', f'TimeDomainSolution with a periodic source of unknown wave type {nm!r}', S.TimeDomainSolution, circ, 35.0)
+            ci = ccp.periodic_current_source(id='I', nodes=('a', '0'), wavetype=nm, I=1.0, w=10.0, phi=0.0)
+            circ_i = Circuit([ci, ccp.resistor('R', ('a', '0'), 5.0)])
+            for wq in (10.0, 25.0):
+                must_raise(ctx, prefix, 'unknown-waveform/analysis', f'transform_circuit at w={wq} with a periodic current source of unknown wave type {nm!r}', transform_circuit, circ_i, wq)
 
     class Alien:
         period, amplitude, phase, offset = 1.0, 1.0, 0.0, 0.0
@@ -205,6 +213,11 @@ NET_VALID = [
     {'type': 'current_source', 'id': 'I1', 'N1': '2', 'N2': '0', 'I': {'real': 0.1, 'imag': 0.0}},
     {'type': 'real_voltage_source', 'id': 'V2', 'N1': '2', 'N2': '1', 'V': 2.0, 'Z': 1.0},
     {'type': 'open_circuit', 'id': 'O1', 'N1': '1', 'N2': '0'},
+    {'type': 'linear_voltage_source', 'id': 'V3', 'N1': '3', 'N2': '0', 'V': {'real': 3.0, 'imag': 1.0}, 'Z': {'real': 2.0, 'imag': 0.5}},
+    {'type': 'linear_current_source', 'id': 'I2', 'N1': '3', 'N2': '1', 'I': {'abs': 0.2, 'phase': 0.3}, 'Y': {'real': 0.1, 'imag': 0.0}},
+    {'type': 'admittance', 'id': 'Y1', 'N1': '3', 'N2': '0', 'Y': {'real': 0.5, 'imag': -0.1}},
+    {'type': 'real_current_source', 'id': 'I3', 'N1': '0', 'N2': '2', 'I': 0.3},
+    {'type': 'short_circuit', 'id': 'S1', 'N1': '3', 'N2': '4'},
 ]
 
 
@@ -237,7 +250,7 @@ def judge_loader(case, ctx, prefix):
     must_raise(ctx, prefix, 'duplicate-id/circuit-loader', 'description with the same component twice', cdl.undictify_circuit, d)
     must_raise(ctx, prefix, 'missing-field/circuit-loader/components', 'document without a component list', cdl.undictify_circuit, {})
     # network loader
-    ents = [NET_VALID[0]] + rng.sample(NET_VALID[1:], rng.randint(1, 5))
+    ents = [NET_VALID[0]] + rng.sample(NET_VALID[1:], rng.randint(2, 8))
     must_accept(ctx, prefix, 'network-loader', 'a valid network description', loaders.load_network, copy.deepcopy(ents))
     for pos in range(len(ents)):
         optional = {'real_voltage_source': ['Z'], 'real_current_source': ['Y']}.get(ents[pos]['type'], [])
